@@ -3,11 +3,11 @@ CONSTANTS
   Slots = {1, 2}
   Evil = 2
   ClaimSet = {1}
-  NoteSet = {0}
+  NoteSet = {0, 1}
   Services = {"a"}
   MaxNet = 2
   MaxBlobs = 2
-  MaxClock = 1
+  MaxClock = 0
   Weaken = "none"
 VIEW MCView
 INVARIANTS Invs
